@@ -285,6 +285,7 @@ class Probe:
         keep = r1
         try:
             if perturb_in_place(args) + perturb_in_place(kwargs) == 0:
+                self._returned_object_probe(fn, qual, args, kwargs, keep, None, None)
                 return r1
             keep_snap = snap(keep)          # taken AFTER the update of the arguments: a result that is a view of an argument has followed it already
             f_args, f_kwargs = fresh_copy(args), fresh_copy(kwargs)
@@ -311,23 +312,37 @@ class Probe:
                 pass
             # (d) what a call returns belongs to the caller: after the caller has scaled the returned object in place, the same call returns the same
             # values as before (unless the result is a view of an argument, which then changed too)
-            arg_snap = (snap(args), snap(kwargs))
-            keep_saved = fresh_copy(keep)
-            try:
-                if qual not in ITERATIVE and perturb_in_place(keep) and same(arg_snap[0], snap(args)) and same(arg_snap[1], snap(kwargs)):
-                    _seed()
-                    r_again = snap(fn(*args, **kwargs))
-                    if not same(r_again, r_same) and same(r_same, r_fresh):
-                        self.result_owned_by_library.setdefault(qual, 'after the caller changed the object a call returned, the same call returns different '
-                                                                      'values: the library handed out (and keeps using) its own storage')
-            finally:
-                restore_in_place(keep, keep_saved)          # the caller receives what the call returned
+            self._returned_object_probe(fn, qual, args, kwargs, keep, r_same, r_fresh)
         except Exception:
             pass
         finally:
             restore_in_place(args, saved_a)          # the caller's objects get their contents back
             restore_in_place(kwargs, saved_k)
         return r1
+
+    def _returned_object_probe(self, fn, qual, args, kwargs, keep, r_same, r_fresh):
+        """(d) what a call returns belongs to the caller: after the caller has scaled the returned object in place, the same call returns the same
+        values as before (unless the result is a view of an argument, which then changed too)"""
+        if qual in ITERATIVE:
+            return
+        if r_same is None:
+            _seed()
+            r_same = snap(fn(*args, **kwargs))
+            _seed()
+            r_fresh = snap(fn(*args, **kwargs))
+        if not same(r_same, r_fresh):
+            return          # not deterministic
+        arg_snap = (snap(args), snap(kwargs))
+        keep_saved = fresh_copy(keep)
+        try:
+            if perturb_in_place(keep) and same(arg_snap[0], snap(args)) and same(arg_snap[1], snap(kwargs)):
+                _seed()
+                r_again = snap(fn(*args, **kwargs))
+                if not same(r_again, r_same):
+                    self.result_owned_by_library.setdefault(qual, 'after the caller changed the object a call returned, the same call returns different '
+                                                                  'values: the library handed out (and keeps using) its own storage')
+        finally:
+            restore_in_place(keep, keep_saved)          # the caller receives what the call returned
 
     def install(self):
         import odak  # noqa
